@@ -62,6 +62,7 @@ type pubCall struct {
 }
 
 type copyInfo struct {
+	cancel context.CancelFunc // of the delivered message's own context (done modes)
 	d      *delivery
 	msg    *message.Message
 	snap   snapshot
@@ -262,6 +263,7 @@ type delivery struct {
 	mid   int
 	shape string // "E" | "-" | c.f0.f1…
 	ctx   string // "" or <keyIdx>_<hex>.…
+	done  string // "" | x: context cancelled before delivery | k: the function cancels it, then returns | t: deadline the function overruns
 }
 
 func unhex(s string) (string, bool) {
@@ -333,7 +335,7 @@ func parse(req string) (*request, bool) {
 			q.hs = append(q.hs, hcfg{name, sub, st, f[3], pt, mw})
 		case kv[0] == "d":
 			f := strings.Split(kv[1], ":")
-			if len(f) != 4 && len(f) != 5 {
+			if len(f) < 4 || len(f) > 6 {
 				return nil, false
 			}
 			sub, err1 := strconv.Atoi(f[0])
@@ -355,9 +357,15 @@ func parse(req string) (*request, bool) {
 					}
 				}
 			}
-			d := delivery{sub, t, mid, f[3], ""}
-			if len(f) == 5 {
+			d := delivery{sub, t, mid, f[3], "", ""}
+			if len(f) >= 5 && f[4] != "n" {
 				d.ctx = f[4]
+			}
+			if len(f) == 6 {
+				if f[5] != "x" && f[5] != "k" && f[5] != "t" {
+					return nil, false
+				}
+				d.done = f[5]
 			}
 			q.ds = append(q.ds, d)
 		case strings.HasPrefix(kv[0], "S"):
@@ -421,6 +429,15 @@ func runCase(req string) (obs string) {
 			r.mu.Unlock()
 			if c == nil {
 				return nil, nil
+			}
+			switch c.d.done {
+			case "k": // the context is cancelled while the function runs; the function carries on and returns normally
+				c.cancel()
+			case "t": // the function overruns the message's deadline
+				select {
+				case <-msg.Context().Done():
+				case <-time.After(settleTimeout):
+				}
 			}
 			if c.d.shape == "E" {
 				return nil, errors.New("handler error")
@@ -544,10 +561,25 @@ func runCase(req string) (obs string) {
 				for _, d := range mine {
 					m := message.NewMessage("m"+strconv.Itoa(d.mid), []byte("payload "+strconv.Itoa(d.mid)))
 					m.Metadata.Set("mid", strconv.Itoa(d.mid))
+					base := context.Background()
 					if d.ctx != "" {
-						m.SetContext(staleCtx(d.ctx))
+						base = staleCtx(d.ctx)
 					}
-					c := &copyInfo{d: d, msg: m, snap: snap(m), settle: "T"}
+					var cancelMsg context.CancelFunc = func() {}
+					switch d.done {
+					case "x":
+						base, cancelMsg = context.WithCancel(base)
+						cancelMsg()
+					case "k":
+						base, cancelMsg = context.WithCancel(base)
+					case "t":
+						base, cancelMsg = context.WithTimeout(base, 2*time.Millisecond)
+					}
+					defer cancelMsg()
+					if d.ctx != "" || d.done != "" {
+						m.SetContext(base)
+					}
+					c := &copyInfo{d: d, msg: m, snap: snap(m), settle: "T", cancel: cancelMsg}
 					r.mu.Lock()
 					r.copies[m] = c
 					r.mu.Unlock()
@@ -755,6 +787,12 @@ func randomCase(rng *wh.Rng) string {
 				}
 				d += ":" + staleSpec(keys, "up")
 			}
+			if rng.Intn(10) == 0 { // the consumed message's context is done when the function returns
+				if !strings.Contains(d[2:], "_") {
+					d += ":n"
+				}
+				d += ":" + rng.Pick("x", "k", "k", "t")
+			}
 			ds = append(ds, d)
 		}
 	}
@@ -865,6 +903,35 @@ func staleCases(emit func(string, string)) {
 	emit("route "+strings.Join(np, " "), "stale.no_publisher_or_empty_topic")
 }
 
+// the consumed message's context is done when the handler function returns (router closing / handler stopped while a
+// message is handled with a subscriber that derives message contexts from the subscription context; a per-message
+// deadline the function overruns; an already cancelled message): every output shape x every mode, at a handler with a
+// publisher, a no-publisher handler with middleware outputs and a nil-publisher handler sharing the subscription.
+// The router decides on the returned error only: outputs are published as returned and the message is acked.
+func doneCases(emit func(string, string)) {
+	for _, mode := range []string{"x", "k", "t"} {
+		toks := []string{"S1=" + wh.HexS("main.subB"), "P1=" + wh.HexS("main.pubA"), "P2=" + wh.HexS("nats.Publisher"),
+			fmt.Sprintf("h=%s:1:%s:p1:%s:0", wh.HexS("pub"), wh.HexS("in"), wh.HexS("out")),
+			fmt.Sprintf("h=%s:1:%s:p2:%s:2", wh.HexS("pub+mw"), wh.HexS("in"), wh.HexS("out2")),
+			fmt.Sprintf("h=%s:1:%s:np:-:1", wh.HexS("np"), wh.HexS("in")),
+			fmt.Sprintf("h=%s:1:%s:nil:%s:0", wh.HexS("nilpub"), wh.HexS("in"), wh.HexS("out"))}
+		mid := 0
+		for _, sh := range []string{"f0", "c", "f0.f1.f0", "-", "E", "c.f0"} {
+			mid++
+			toks = append(toks, fmt.Sprintf("d=1:%s:%d:%s:n:%s", wh.HexS("in"), mid, sh, mode))
+			mid++
+			toks = append(toks, fmt.Sprintf("d=1:%s:%d:%s:%s:%s", wh.HexS("in"), mid, sh, staleSpec([]int{4, 0}, "upstream"), mode))
+			mid++
+			toks = append(toks, fmt.Sprintf("d=1:%s:%d:%s", wh.HexS("in"), mid, sh)) // a live one in between
+		}
+		emit("route "+strings.Join(toks, " "), "done_context."+mode)
+		single := []string{"S1=" + wh.HexS("main.subA"), "P1=" + wh.HexS("main.pubB"),
+			fmt.Sprintf("h=%s:1:%s:p1:%s:0", wh.HexS("h"), wh.HexS("in"), wh.HexS("out")),
+			fmt.Sprintf("d=1:%s:1:f0.f1:n:%s", wh.HexS("in"), mode)}
+		emit("route "+strings.Join(single, " "), "done_context."+mode)
+	}
+}
+
 type job struct{ req, tag string }
 
 func main() {
@@ -896,6 +963,7 @@ func main() {
 		emit(randomCase(rng), "random")
 	}
 	staleCases(emit)
+	doneCases(emit)
 	reqs := make([]string, len(jobs))
 	for i, j := range jobs {
 		reqs[i] = j.req
@@ -943,8 +1011,11 @@ func main() {
 				default:
 					out.Count("shape.fresh")
 				}
-				if len(f) == 5 {
+				if len(f) >= 5 && f[4] != "n" {
 					out.Count("deliveries.with_stale_context")
+				}
+				if len(f) == 6 {
+					out.Count("deliveries.context_done." + f[5])
 				}
 			}
 		}
